@@ -34,10 +34,16 @@ ASSUMPTIONS = [
     'an immutable value and execute is a function): checked by deep-copy/compare and by executing every model twice',
     'negative zero is not modelled by the rational host: "-0" in log lines and in strings built from numbers is compared as "0" (number text is C12/C13); values '
     'that contain themselves (F18) are not compared',
-    'Python recursion limit is not modelled: generated models have no unbounded recursion (DESIGN section 6)',
+    'Python recursion limit is not modelled: generated models have no unbounded recursion (DESIGN section 6); the session and '
+    're-binding families nest at most 51 / 67 script function calls',
+    're-use of one options dict by the host, host calls of script functions after a run and host callables (hostApply / hostTry / '
+    'hostFail) are not expressible in the Lean model (it executes one model from one state): implementation-side oracles only - every '
+    'step must equal the same step on new options and the prediction of the independent statement interpreter RbSim',
 ]
 TRUSTED = ['reference statement interpreter (first label of that name in the same list, unknown-label error, return, function '
-           'binding, per-list label scope) and the model enumerator/mutator in harness/props/C08.py (the property oracle)']
+           'binding, per-list label scope) and the model enumerator/mutator in harness/props/C08.py (the property oracle)',
+           'RbSim, the statement interpreter with its own expression evaluator for the abstract re-binding / session programs, their '
+           'renderer to jump-level models and to include text (the parse of the text is checked against the rendered model)']
 
 MAX_EXH = 60
 CORPUS = os.path.join(os.path.dirname(os.path.dirname(os.path.abspath(__file__))), 'corpus', 'C08.jsonl')
@@ -1055,6 +1061,1196 @@ def stream_random(ctx, n, driver=True, name='exec-random'):
 
 
 # ---------------------------------------------------------------------------------------------------------------------
+# (F) re-binding programs and (G) sessions on one options object
+#
+# Both families are generated in a small ABSTRACT language (JSON lists), rendered statement by statement to a jump-level
+# model, and interpreted by RbSim, a reference written from the property statement with its OWN expression evaluator (the
+# reference interpreter above shares evaluate_expression with the implementation; RbSim shares nothing with it).
+#
+#   expressions  ['num', i]  ['null']  ['var', v]  ['nm1', c] = n - c   ['call', callee, [args]]   ['add', a, b]
+#                ['ifpos', a, b] = if(n > 0, a, b)   ['partial', f, a] = systemPartial(f, a)   ['gset', name, e] =
+#                systemGlobalSet('name', e)   ['arr', [e...]] = arrayNew(e...)
+#   statements   ['def', name, tag, body] (parameters n, cb)   ['set', v, e]   ['do', e]   ['logn', tag]   ['logv', tag, e]
+#                ['jle0', label] = jumpif (n <= 0) label   ['jump', label]   ['label', label]   ['ret', e]   ['ret0']
+#                ['include', url]
+#
+# What the implementation does with a call of a number, a systemPartial of a non-function or arithmetic on a function value is
+# not the subject of C08: RbSim raises RbUnmodelled there and the generators drop such programs.
+# ---------------------------------------------------------------------------------------------------------------------
+
+RB_NAMES = ['fa', 'fb', 'fc']
+RB_VARS = ['k1', 'k2']
+RB_PARAMS = ['n', 'cb']
+RB_MAX = 200                 # statement budget of a single re-binding program (>= 3 statements per nesting level: depth <= 67)
+SESSION_MAX = 2000           # statement budget of every step of a session
+RB_FUEL = 60000
+
+
+def rb_expr(e):
+    kind = e[0]
+    if kind == 'num':
+        return {'number': e[1]}
+    if kind == 'null':
+        return e_var('null')
+    if kind == 'var':
+        return e_var(e[1])
+    if kind == 'nm1':
+        return e_bin('-', e_var('n'), {'number': e[1]})
+    if kind == 'call':
+        return e_call(e[1], *[rb_expr(a) for a in e[2]])
+    if kind == 'add':
+        return e_bin('+', rb_expr(e[1]), rb_expr(e[2]))
+    if kind == 'ifpos':
+        return e_call('if', e_bin('>', e_var('n'), {'number': 0}), rb_expr(e[1]), rb_expr(e[2]))
+    if kind == 'partial':
+        return e_call('systemPartial', rb_expr(e[1]), rb_expr(e[2]))
+    if kind == 'gset':
+        return e_call('systemGlobalSet', e_str(e[1]), rb_expr(e[2]))
+    if kind == 'arr':
+        return e_call('arrayNew', *[rb_expr(a) for a in e[1]])
+    raise ValueError(kind)
+
+
+def rb_stmt(s):
+    kind = s[0]
+    if kind == 'def':
+        return {'function': {'name': s[1], 'args': list(RB_PARAMS), 'statements': [rb_stmt(x) for x in s[3]]}}
+    if kind == 'set':
+        return s_assign(s[1], rb_expr(s[2]))
+    if kind == 'do':
+        return s_expr(rb_expr(s[1]))
+    if kind == 'logn':
+        return s_expr(e_call('systemLog', e_bin('+', e_str(s[1] + ' '), e_var('n'))))
+    if kind == 'logv':
+        return s_expr(e_call('systemLog', e_bin('+', e_str(s[1] + ' '), rb_expr(s[2]))))
+    if kind == 'jle0':
+        return {'jump': {'label': s[1], 'expr': e_bin('<=', e_var('n'), {'number': 0})}}
+    if kind == 'jump':
+        return {'jump': {'label': s[1]}}
+    if kind == 'label':
+        return {'label': s[1]}
+    if kind == 'ret':
+        return {'return': {'expr': rb_expr(s[1])}}
+    if kind == 'ret0':
+        return {'return': {}}
+    if kind == 'include':
+        return {'include': {'includes': [{'url': s[1]}]}}
+    raise ValueError(kind)
+
+
+def rb_model(stmts):
+    return {'statements': [rb_stmt(s) for s in stmts]}
+
+
+def rb_expr_text(e):
+    kind = e[0]
+    if kind == 'num':
+        return str(e[1])
+    if kind == 'null':
+        return 'null'
+    if kind == 'var':
+        return e[1]
+    if kind == 'nm1':
+        return 'n - %d' % e[1]
+    if kind == 'call':
+        return e[1] + '(' + ', '.join(rb_expr_text(a) for a in e[2]) + ')'
+    if kind == 'add':
+        return rb_expr_text(e[1]) + ' + ' + rb_expr_text(e[2])
+    if kind == 'ifpos':
+        return 'if(n > 0, ' + rb_expr_text(e[1]) + ', ' + rb_expr_text(e[2]) + ')'
+    if kind == 'partial':
+        return 'systemPartial(' + rb_expr_text(e[1]) + ', ' + rb_expr_text(e[2]) + ')'
+    if kind == 'gset':
+        return "systemGlobalSet('" + e[1] + "', " + rb_expr_text(e[2]) + ')'
+    if kind == 'arr':
+        return 'arrayNew(' + ', '.join(rb_expr_text(a) for a in e[1]) + ')'
+    raise ValueError(kind)
+
+
+def rb_text(stmts, indent=''):
+    """source text of an include file (its parse is checked against the rendered model by rb_files_text)"""
+    out = []
+    for s in stmts:
+        kind = s[0]
+        if kind == 'def':
+            out.append(indent + 'function ' + s[1] + '(' + ', '.join(RB_PARAMS) + '):')
+            out += rb_text(s[3], indent + '    ')
+            out.append(indent + 'endfunction')
+        elif kind == 'set':
+            out.append(indent + s[1] + ' = ' + rb_expr_text(s[2]))
+        elif kind == 'do':
+            out.append(indent + rb_expr_text(s[1]))
+        elif kind == 'logn':
+            out.append(indent + "systemLog('" + s[1] + " ' + n)")
+        elif kind == 'logv':
+            out.append(indent + "systemLog('" + s[1] + " ' + " + rb_expr_text(s[2]) + ')')
+        elif kind == 'jle0':
+            out.append(indent + 'jumpif (n <= 0) ' + s[1])
+        elif kind == 'jump':
+            out.append(indent + 'jump ' + s[1])
+        elif kind == 'label':
+            out.append(indent + s[1] + ':')
+        elif kind == 'ret':
+            out.append(indent + 'return ' + rb_expr_text(s[1]))
+        elif kind == 'ret0':
+            out.append(indent + 'return')
+        else:
+            raise ValueError(kind)
+    return out
+
+
+_FILES_TEXT = {}
+
+
+def rb_files_text(files):
+    """abstract include files -> {url: text} for fetchFn ('broken' -> a text with a syntax error; missing urls are absent)"""
+    key = json.dumps(files or {}, sort_keys=True)
+    if key not in _FILES_TEXT:
+        if len(_FILES_TEXT) > 2000:
+            _FILES_TEXT.clear()
+        _FILES_TEXT[key] = _rb_files_text(files)
+    return dict(_FILES_TEXT[key])
+
+
+def _rb_files_text(files):
+    out = {}
+    for url, content in (files or {}).items():
+        if content == 'broken':
+            out[url] = 'x = ('
+        else:
+            text = '\n'.join(rb_text(content)) + '\n'
+            if fw.impl()['parser'].parse_script(text) != rb_model(content):
+                raise AssertionError('include text does not parse to the rendered model: ' + text)
+            out[url] = text
+    return out
+
+
+class RbUnmodelled(Exception):
+    """the program does something whose outcome C08 does not state"""
+
+
+class RbError(Exception):
+    """a script runtime error"""
+
+
+class RbFn:
+    def __init__(self, node):
+        self.node = node
+
+
+class RbPartial:
+    def __init__(self, fn, bound):
+        self.fn, self.bound = fn, bound
+
+
+class RbHost:
+    def __init__(self, kind):
+        self.kind = kind
+
+
+# Host callables supplied as globals (spelt {'host': kind} in a session so that a witness stays JSON):
+#   hostApply(fn, n) calls fn([n, null], options) - the host sits in the middle of a chain of script function calls;
+#   hostTry(fn, n) does the same, catches BareScriptRuntimeError and returns -1 - the run goes on after a failure inside nested calls
+#   hostFail() raises BareScriptRuntimeError('host failure')
+HOST_GLOBALS = {'hostApply': {'host': 'apply'}, 'hostTry': {'host': 'try'}, 'hostFail': {'host': 'fail'}}
+
+
+def _host_fail(unused_args, unused_options):
+    raise fw.impl()['runtime'].BareScriptRuntimeError('host failure')
+
+
+def _host_apply(args, options):
+    return args[0]([args[1] if len(args) > 1 else None, None], options)
+
+
+def _host_try(args, options):
+    try:
+        return _host_apply(args, options)
+    except fw.impl()['runtime'].BareScriptRuntimeError:
+        return -1
+
+
+def is_host_spec(v):
+    return isinstance(v, dict) and set(v) == {'host'}
+
+
+def session_globals(spec):
+    """the globals of an exec step as Python values: a fresh deep copy, {'host': kind} -> the host callable"""
+    return {k: ({'apply': _host_apply, 'try': _host_try, 'fail': _host_fail}[v['host']] if is_host_spec(v) else copy.deepcopy(v)) for k, v in spec.items()}
+
+
+def uses_host(spec):
+    return any(is_host_spec(v) for v in spec.values())
+
+
+def rb_is_num(v):
+    return isinstance(v, (int, float)) and not isinstance(v, bool)
+
+
+def rb_wire(v):
+    if v is None:
+        return None
+    if rb_is_num(v):
+        return progen.value_to_wire(v)
+    if isinstance(v, RbFn):
+        return {'f': 'script'}
+    if isinstance(v, (RbPartial, RbHost)):
+        return {'f': 'other'}
+    if isinstance(v, list):
+        return [rb_wire(x) for x in v]
+    raise RbUnmodelled('value')
+
+
+class RbSim:
+    """The documented statement semantics on abstract programs: statements in order; a taken jump continues after the FIRST label
+    of that name in the SAME list or raises Unknown jump label; return ends the current list with its optional value; a function
+    statement binds the GLOBAL name to the new function (whoever calls the name afterwards, from wherever, gets the new one; a
+    value read from the name before keeps the old one); a call runs the callee's own list with its own locals; an include runs
+    the file's list in the global scope.  One statement counter, budget error when statement max+1 would start."""
+
+    def __init__(self, host_globals, files, max_statements):
+        self.g = {k: (RbHost(v['host']) if is_host_spec(v) else v) for k, v in host_globals.items()}
+        self.files = files or {}
+        self.max = max_statements
+        self.count = 0
+        self.log = []
+
+    def var(self, name, locals_):
+        if locals_ is not None and name in locals_:
+            return locals_[name]
+        return self.g.get(name)
+
+    @staticmethod
+    def text(v):
+        if v is None:
+            return 'null'
+        if rb_is_num(v) and v == int(v):
+            return str(int(v))
+        raise RbUnmodelled('text of ' + type(v).__name__)
+
+    def ev(self, e, locals_):
+        kind = e[0]
+        if kind == 'num':
+            return e[1]
+        if kind == 'null':
+            return None
+        if kind == 'var':
+            return self.var(e[1], locals_)
+        if kind == 'nm1':
+            n = self.var('n', locals_)
+            if n is None:
+                return None
+            if not rb_is_num(n):
+                raise RbUnmodelled('n - 1')
+            return n - e[1]
+        if kind == 'add':
+            a, b = self.ev(e[1], locals_), self.ev(e[2], locals_)
+            if a is None or b is None:
+                return None
+            if not (rb_is_num(a) and rb_is_num(b)):
+                raise RbUnmodelled('+')
+            return a + b
+        if kind == 'ifpos':
+            n = self.var('n', locals_)
+            if n is not None and not rb_is_num(n):
+                raise RbUnmodelled('n > 0')
+            return self.ev(e[1] if (n is not None and n > 0) else e[2], locals_)
+        if kind == 'partial':
+            fn, bound = self.ev(e[1], locals_), self.ev(e[2], locals_)
+            if not isinstance(fn, (RbFn, RbPartial, RbHost)):
+                raise RbUnmodelled('systemPartial of a non-function')
+            return RbPartial(fn, [bound])
+        if kind == 'gset':
+            value = self.ev(e[2], locals_)
+            self.g[e[1]] = value
+            return value
+        if kind == 'arr':
+            return [self.ev(a, locals_) for a in e[1]]
+        if kind == 'call':
+            args = [self.ev(a, locals_) for a in e[2]]
+            if locals_ is not None and e[1] in locals_:
+                fn = locals_[e[1]]
+            else:
+                fn = self.g.get(e[1])
+            if fn is None:
+                raise RbError(f'Undefined function "{e[1]}"')
+            return self.call_value(fn, args)
+        raise ValueError(kind)
+
+    def call_value(self, fn, args):
+        while isinstance(fn, RbPartial):
+            fn, args = fn.fn, fn.bound + list(args)
+        if isinstance(fn, RbHost):
+            if fn.kind == 'fail':
+                raise RbError('host failure')
+            target = args[0] if args else None
+            if not isinstance(target, (RbFn, RbPartial, RbHost)):
+                raise RbUnmodelled('host call of a non-function')
+            inner = [args[1] if len(args) > 1 else None, None]
+            if fn.kind == 'apply':
+                return self.call_value(target, inner)
+            try:
+                return self.call_value(target, inner)
+            except RbError as exc:
+                if str(exc) == 'ParserError':          # not a BareScriptRuntimeError: hostTry does not catch it
+                    raise
+                return -1
+        if not isinstance(fn, RbFn):
+            raise RbUnmodelled('call of a non-function')
+        return self.run(fn.node[3], {p: (args[ix] if ix < len(args) else None) for ix, p in enumerate(RB_PARAMS)})
+
+    def run(self, stmts, locals_):
+        first = {}
+        for ix, s in enumerate(stmts):
+            if s[0] == 'label' and s[1] not in first:
+                first[s[1]] = ix
+        pc = 0
+        while pc < len(stmts):
+            s = stmts[pc]
+            self.count += 1
+            if self.max > 0 and self.count > self.max:
+                raise RbError(f'Exceeded maximum script statements ({self.max})')
+            kind = s[0]
+            if kind == 'def':
+                self.g[s[1]] = RbFn(s)
+            elif kind == 'set':
+                value = self.ev(s[2], locals_)
+                if locals_ is not None:
+                    locals_[s[1]] = value
+                else:
+                    self.g[s[1]] = value
+            elif kind == 'do':
+                self.ev(s[1], locals_)
+            elif kind == 'logn':
+                self.log.append(s[1] + ' ' + self.text(self.var('n', locals_)))
+            elif kind == 'logv':
+                self.log.append(s[1] + ' ' + self.text(self.ev(s[2], locals_)))
+            elif kind in ('jle0', 'jump'):
+                taken = True
+                if kind == 'jle0':
+                    n = self.var('n', locals_)
+                    if n is not None and not rb_is_num(n):
+                        raise RbUnmodelled('n <= 0')
+                    taken = n is None or n <= 0             # null is less than every number
+                if taken:
+                    if s[1] not in first:
+                        raise RbError(f'Unknown jump label "{s[1]}"')
+                    pc = first[s[1]] + 1
+                    continue
+            elif kind == 'label':
+                pass
+            elif kind == 'ret':
+                return self.ev(s[1], locals_)
+            elif kind == 'ret0':
+                return None
+            elif kind == 'include':
+                content = self.files.get(s[1])
+                if content is None:
+                    raise RbError(f'Include of "{s[1]}" failed')
+                if content == 'broken':
+                    raise RbError('ParserError')
+                self.run(content, None)
+            else:
+                raise ValueError(kind)
+            pc += 1
+        return None
+
+    def outcome(self, fn):
+        out = {}
+        try:
+            out['result'] = rb_wire(fn())
+        except RbError as exc:
+            out['error'] = str(exc)
+        return out
+
+    def state(self, out, log_from):
+        out['log'] = self.log[log_from:]
+        out['globals'] = sorted([[k, rb_wire(v)] for k, v in self.g.items()], key=lambda kv: kv[0])
+        out['count'] = self.count
+        return out
+
+
+def rb_canon(out):
+    """outcome of the implementation / of the Lean model in the vocabulary of RbSim (a parser error of an include by its class)"""
+    if isinstance(out, dict) and str(out.get('error', '')).startswith('ParserError'):
+        out = dict(out, error='ParserError')
+    return out
+
+
+def rb_impl_outcome(fn):
+    mods = fw.impl()
+    runtime, library, parser = mods['runtime'], mods['library'], mods['parser']
+    out = {}
+    try:
+        out['result'] = progen.value_to_wire(guarded(fn), library.SCRIPT_FUNCTIONS)
+    except runtime.BareScriptRuntimeError as exc:
+        out['error'] = str(exc)
+    except parser.BareScriptParserError:
+        out['error'] = 'ParserError'
+    except Hang:
+        HANGS[0] += 1
+        out['hostexc'] = f'Hang: still running after {HANG_SECONDS} s of CPU time'
+    except RecursionError:
+        out['hostexc'] = 'RecursionError'
+    except Exception as exc:  # pylint: disable=broad-except
+        out['hostexc'] = type(exc).__name__ + ': ' + str(exc)[:200]
+    return out
+
+
+def step_max(session, step):
+    """the statement budget of an exec step: its own (4th member) or the session's"""
+    return step[3] if len(step) > 3 else session['max']
+
+
+def session_arg(spec, lookup):
+    """argument of a host call: a number / null, or {'global': name} = the current value of that global"""
+    return lookup(spec['global']) if isinstance(spec, dict) else spec
+
+
+def run_session_impl(session, models, file_texts, reuse):
+    """The steps of a session on the implementation.
+    ['exec', i, globals(, max)]: execute_script(models[i], options) with options['globals'] = a fresh copy of globals (and
+    options['maxStatements'] = max);
+    ['call', name, [args]]: the host calls the value of the global `name` left by the steps before, as fn(args, options);
+    ['eval', expr, builtins]: evaluate_expression(expr, options, None, builtins) on the globals left by the steps before.
+    reuse=True: ONE options dict for the whole session (the embedding application's options object, as it is after every step);
+    reuse=False: a new options dict for every exec step."""
+    runtime = fw.impl()['runtime']
+    log = []
+    options = None
+    outs = []
+
+    def fetch(req):
+        return file_texts.get(req['url'])
+    for step in session['steps']:
+        start = len(log)
+        if step[0] == 'exec':
+            if options is None or not reuse:
+                options = {'logFn': log.append, 'fetchFn': fetch}
+            options['maxStatements'] = step_max(session, step)
+            options['globals'] = session_globals(step[2])
+            model = models[step[1]]
+            out = rb_impl_outcome(lambda m=model, o=options: runtime.execute_script(m, o))
+        elif options is None:
+            outs.append({'skipped': True})
+            continue
+        elif step[0] == 'call':
+            fn = options['globals'].get(step[1])
+            if not callable(fn):
+                outs.append({'skipped': True})
+                continue
+            args = [session_arg(a, options['globals'].get) for a in step[2]]
+            out = rb_impl_outcome(lambda f=fn, a=args, o=options: f(a, o))
+        else:
+            out = rb_impl_outcome(lambda e=rb_expr(step[1]), o=options, b=step[2]: runtime.evaluate_expression(e, o, None, b))
+        out['log'] = log[start:]
+        out['globals'] = user_globals(options['globals'])
+        out['count'] = options.get('statementCount')
+        outs.append(out)
+    return outs
+
+
+def run_session_sim(session):
+    """the same steps on RbSim (a new RbSim per exec step: executions are independent) -> outcomes, or None if unmodelled"""
+    sim = None
+    outs = []
+    try:
+        for step in session['steps']:
+            if step[0] == 'exec':
+                sim = RbSim(step[2], session.get('files'), step_max(session, step))
+                prog = session['progs'][step[1]]
+                outs.append(sim.state(sim.outcome(lambda s=sim, p=prog: s.run(p, None)), 0))
+                continue
+            if sim is None:
+                outs.append({'skipped': True})
+                continue
+            start = len(sim.log)
+            if step[0] == 'call':
+                fn = sim.g.get(step[1])
+                if not isinstance(fn, (RbFn, RbPartial, RbHost)):
+                    if fn is not None:
+                        raise RbUnmodelled('host call of a non-function')
+                    outs.append({'skipped': True})
+                    continue
+                args = [session_arg(a, sim.g.get) for a in step[2]]
+                outs.append(sim.state(sim.outcome(lambda s=sim, f=fn, a=args: s.call_value(f, a)), start))
+            else:
+                outs.append(sim.state(sim.outcome(lambda s=sim, e=step[1]: s.ev(e, None)), start))
+    except (RbUnmodelled, RecursionError):
+        return None
+    return outs
+
+
+def session_failures(session, want=None):
+    """-> [(oracle, step index, expected, actual)] for one session on the implementation
+    session-reused-options: every step gives the same outcome on one re-used options object as with new options per execution;
+    session-closed-form: every step gives the outcome of RbSim; session-model-immutable: the model objects are unchanged."""
+    models = [rb_model(p) for p in session['progs']]
+    texts = rb_files_text(session.get('files'))
+    before = json.dumps(models, sort_keys=True)
+    fresh = [rb_canon(o) for o in run_session_impl(session, models, texts, False)]
+    reused = [rb_canon(o) for o in run_session_impl(session, models, texts, True)]
+    bad = []
+    if json.dumps(models, sort_keys=True) != before:
+        bad.append(('session-model-immutable', None, json.loads(before), json.loads(json.dumps(models))))
+    for ix, (one, two) in enumerate(zip(fresh, reused)):
+        if one != two:
+            bad.append(('session-reused-options', ix, one, two))
+            break
+    sim = run_session_sim(session)
+    if sim is not None:
+        for ix, (one, two) in enumerate(zip(sim, fresh)):
+            if 'hostexc' not in two and one != two:
+                bad.append(('session-closed-form', ix, one, two))
+                break
+    for ix, out in enumerate(fresh + reused):
+        if out.get('hostexc', '').startswith('Hang'):
+            bad.append(('run-stops-within-budget', ix % len(fresh), f'at most {session["max"]} statements start', out['hostexc']))
+            break
+    if want is not None:
+        bad = [b for b in bad if b[0] == want]
+    return bad, fresh, sim
+
+
+def session_trim(session, oracle, step):
+    """the session cut after the failing step, then steps deleted greedily while the same oracle still fails; unused programs
+    and files dropped"""
+    def fails(candidate):
+        try:
+            return bool(session_failures(candidate, oracle)[0])
+        except Exception:  # pylint: disable=broad-except
+            return False
+    best = dict(session, steps=session['steps'][:step + 1] if step is not None else list(session['steps']))
+    if not fails(best):
+        best = dict(session)
+    replays = 0
+    ix = len(best['steps']) - 2
+    while ix >= 0 and replays < 250:
+        trial = dict(best, steps=best['steps'][:ix] + best['steps'][ix + 1:])
+        replays += 1
+        if fails(trial):
+            best = trial
+        ix -= 1
+    used = sorted({s[1] for s in best['steps'] if s[0] == 'exec'})
+    trial = dict(best, progs=[best['progs'][i] for i in used],
+                 steps=[['exec', used.index(s[1])] + s[2:] if s[0] == 'exec' else s for s in best['steps']])
+    if fails(trial):
+        best = trial
+    urls = set()
+    for prog in best['progs']:
+        rb_include_urls(prog, urls)
+    trial = dict(best, files={url: content for url, content in (best.get('files') or {}).items() if url in urls})
+    if fails(trial):
+        best = trial
+    return best
+
+
+def rb_include_urls(stmts, out):
+    for s in stmts:
+        if s[0] == 'include':
+            out.add(s[1])
+        elif s[0] == 'def':
+            rb_include_urls(s[3], out)
+
+
+def session_report(ctx, session, whole_too=False):
+    """oracles of one session -> witnesses; returns (outcomes with new options per execution, RbSim outcomes).
+    whole_too: the session is built to fail on its own history; it is also reported untrimmed (only cut after the failing step):
+    when the failure comes from state of the PROCESS left by earlier sessions, step deletion keeps a session that fails in this
+    process only, and the untrimmed one is the candidate that fails again in a fresh interpreter (order_witnesses)."""
+    bad, fresh, sim = session_failures(session)
+    for oracle, step, expected, actual in bad:
+        if whole_too and step is not None and ctx.__dict__.setdefault('c08_whole', {}).get(oracle, 0) < 6:
+            ctx.c08_whole[oracle] = ctx.c08_whole.get(oracle, 0) + 1
+            whole = dict(session, steps=session['steps'][:step + 1])
+            ctx.witness(oracle, {'session': whole, 'step': step, 'models': [rb_model(p) for p in whole['progs']],
+                                 'file_texts': rb_files_text(whole.get('files'))}, expected, actual, whole_session=True)
+        small = session
+        trimmed = ctx.__dict__.setdefault('c08_trimmed', {})
+        if trimmed.get(oracle, 0) < 4:                 # step deletion re-runs the session many times: the first few witnesses only
+            trimmed[oracle] = trimmed.get(oracle, 0) + 1
+            small = session_trim(session, oracle, step)
+        elif step is not None:
+            small = dict(session, steps=session['steps'][:step + 1])
+        again = session_failures(small, oracle)[0]
+        if again:
+            _, step, expected, actual = again[0]
+        else:
+            small = session
+        # 'models' is for the reader (the jump-level models of the programs); replay() renders them again from 'session'
+        ctx.witness(oracle, {'session': small, 'step': step, 'models': [rb_model(p) for p in small['progs']],
+                             'file_texts': rb_files_text(small.get('files'))}, expected, actual)
+    return fresh, sim
+
+
+def rb_has_include(stmts):
+    return any(s[0] == 'include' or (s[0] == 'def' and rb_has_include(s[3])) for s in stmts)
+
+
+def session_exec_requests(session, models, seen):
+    """the distinct (program, globals, files, budget) executions of a session -> [(step index, driver request or None)]"""
+    parse = fw.impl()['parser'].parse_script
+    texts = rb_files_text(session.get('files'))
+    reqs = []
+    for ix, step in enumerate(session['steps']):
+        if step[0] != 'exec':
+            continue
+        key = json.dumps([session['progs'][step[1]], step[2], session.get('files'), step_max(session, step)], sort_keys=True)
+        if key in seen:
+            continue
+        seen.add(key)
+        if uses_host(step[2]):                             # host callables: not expressible in the Lean host
+            reqs.append((ix, None))
+            continue
+        counter = [0]
+        req = {'op': 'exec', 'script': progen.canon_script(models[step[1]], counter), 'globals': progen.wire_globals(step[2]),
+               'max': step_max(session, step), 'fuel': RB_FUEL}
+        files = []
+        for url, content in sorted((session.get('files') or {}).items()):
+            files.append([url, 'broken'] if content == 'broken' else [url, progen.canon_script(parse(texts[url]), counter)])
+        if files:
+            req['files'] = files
+        reqs.append((ix, req))
+    return reqs
+
+
+def run_sessions(ctx, stream, st, cases, use_driver=True):
+    """cases: [(case id, session, tags)]: the session oracles on the implementation; every distinct execution of a session also
+    against the Lean model (exec op, with the include files) and, without includes, against the reference statement interpreter"""
+    seen = set()
+    pending = []
+    for case, session, tags in cases:
+        if HANGS[0] >= 3:
+            ctx.notes.append('stream stopped: the implementation did not stop under maxStatements in 3 runs')
+            return
+        fresh, sim = session_report(ctx, session, whole_too='directed' in tags)
+        models = [rb_model(p) for p in session['progs']]
+        kinds = sorted({t for o in fresh for t in outcome_tags(o)} - {'ok'}) if fresh else []
+        st.case(case, nontrivial=sim is not None and len(fresh) > 0,
+                tags=list(tags) + ['faulted' if kinds else 'error-free'] + (['sim-unmodelled'] if sim is None else []))
+        for ix, req in session_exec_requests(session, models, seen):
+            if req is not None:
+                pending.append((case, ix, req, fresh[ix]))
+            step = session['steps'][ix]
+            if not rb_has_include(session['progs'][step[1]]) and 'hostexc' not in fresh[ix]:
+                ref = run_reference(models[step[1]], session_globals(step[2]), step_max(session, step))
+                got = run_impl(models[step[1]], session_globals(step[2]), step_max(session, step))
+                if ref is not None and ref != got:
+                    ctx.witness('documented-statement-semantics', {'model': models[step[1]], 'globals': step[2], 'host_globals': True,
+                                                                   'max': step_max(session, step), 'history': []}, ref, got)
+    if ctx.driver is None or not use_driver:
+        return
+    resps = ctx.driver.batch([req for _, _, req, _ in pending])
+    for (case, ix, _, impl), resp in zip(pending, resps):
+        if resp.get('oof') or 'hostexc' in impl:
+            continue
+        ctx.compare(stream, [case, ix], impl, rb_canon(progen.canon_model_out(resp)))
+
+
+# --- generators ---
+
+def rb_call(callee, n_expr, cb_expr):
+    return ['call', callee, [n_expr, cb_expr]]
+
+
+def rb_simple_body(tag, value):
+    return [['logn', tag], ['ret', ['num', value]]]
+
+
+REBIND_KEEPS = ['alias', 'partial', 'callback', 'local-alias', 'executing', 'called-before']
+REBIND_HOWS = ['def', 'nested-def', 'gset-fn', 'gset-null', 'assign', 'include']
+REBIND_FORMS = ['tail', 'add1', 'via-var', 'ifpos', 'tail-through-other']
+
+
+def rb_recursive_step(form, callee, cb_expr=None):
+    call = rb_call(callee, ['nm1', 1], cb_expr or ['var', 'cb'])
+    if form == 'tail':
+        return [['ret', call]]
+    if form == 'add1':
+        return [['ret', ['add', ['num', 1], call]]]
+    if form == 'via-var':
+        return [['set', 'r', call], ['ret', ['var', 'r']]]
+    if form == 'ifpos':
+        return [['ret', ['ifpos', call, ['num', 7]]]]
+    if form == 'two':
+        return [['ret', ['add', call, rb_call(callee, ['nm1', 2], ['null'])]]]
+    if form == 'do':
+        return [['do', call]]
+    if form in ('via-host', 'via-try'):          # the host calls the current value of the name: hostApply(callee, n - 1)
+        return [['ret', ['call', 'hostApply' if form == 'via-host' else 'hostTry', [['var', callee], ['nm1', 1]]]]]
+    raise ValueError(form)
+
+
+def rebind_directed(keep, how, form, where):
+    """One history: `fa` is bound to a function whose body calls `fa` again (in return position / inside an addition / through a
+    variable / through if() / through fb); the function value is kept (alias variable, systemPartial, callback argument, local
+    alias of another function, or it is simply still running); the global `fa` is re-bound (second function statement, function
+    statement in the body of another function, systemGlobalSet to another function / to null, assignment, include) at the top
+    level or from inside the running body; then the kept value is called.  -> (statements, files)"""
+    files = {}
+    new_body = rb_simple_body('fa2', 20)
+    if how == 'def':
+        rebind = [['def', 'fa', 'fa2', new_body]]
+    elif how == 'nested-def':
+        rebind = [['def', 'rb', 'rb1', [['def', 'fa', 'fa2', new_body], ['ret', ['num', 0]]]], ['do', rb_call('rb', ['num', 0], ['null'])]]
+    elif how == 'gset-fn':
+        rebind = [['def', 'fc', 'fa2', new_body], ['do', ['gset', 'fa', ['var', 'fc']]]]
+    elif how == 'gset-null':
+        rebind = [['do', ['gset', 'fa', ['null']]]]
+    elif how == 'assign':               # at the top level: re-binds the global; inside a body: a LOCAL named fa shadows the global
+        rebind = [['def', 'fc', 'fa2', new_body], ['set', 'fa', ['var', 'fc']]]
+    else:
+        files['lib.bare'] = [['def', 'fa', 'fa2', new_body]]
+        rebind = [['include', 'lib.bare']]
+    if form == 'tail-through-other':
+        step = rb_recursive_step('tail', 'fb')
+    else:
+        step = rb_recursive_step(form, 'fa')
+    inside = rebind if where == 'in-body' and keep != 'called-before' else []
+    old_body = [['logn', 'fa1']] + inside + [['jle0', 'done']] + step + [['label', 'done'], ['ret', ['num', 10]]]
+    stmts = [['def', 'fa', 'fa1', old_body],
+             ['def', 'fb', 'fb1', [['logn', 'fb1'], ['jle0', 'done'], ['ret', rb_call('fa', ['nm1', 1], ['var', 'cb'])], ['label', 'done'],
+                                   ['ret', ['num', 30]]]]]
+    kept = 'k1'
+    if keep == 'alias':
+        stmts.append(['set', 'k1', ['var', 'fa']])
+    elif keep == 'partial':
+        stmts.append(['set', 'k1', ['partial', ['var', 'fa'], ['num', 3]]])
+    elif keep == 'callback':            # ap(n, cb) calls cb(n - 1, null) - the callee is a local variable of ap
+        stmts.append(['def', 'ap', 'ap1', [['logn', 'ap1'], ['ret', rb_call('cb', ['nm1', 1], ['null'])]]])
+        stmts.append(['set', 'k1', ['var', 'fa']])
+    elif keep in ('local-alias', 'called-before'):  # hold(n, cb): local k = fa, the re-binding happens while hold runs, then k(n - 1)
+        kept = None
+    else:
+        kept = 'fa' if where == 'in-body' else 'k1'
+        if where != 'in-body':
+            stmts.append(['set', 'k1', ['var', 'fa']])
+    stmts += [['set', 'r0', rb_call('fa', ['num', 1], ['null'])], ['logv', 'r0', ['var', 'r0']]]
+    if keep == 'called-before':         # one invocation calls fa by name, re-binds it (itself / through rbx), calls fa by name again
+        if where == 'top':
+            stmts.append(['def', 'rbx', 'rbx1', rebind + [['ret', ['num', 0]]]])
+        inner = rebind if where == 'in-body' else [['do', rb_call('rbx', ['num', 0], ['null'])]]
+        stmts.append(['def', 'hold', 'hold1', [['logn', 'hold1'], ['set', 'a', rb_call('fa', ['nm1', 1], ['null'])]] + inner +
+                      [['set', 'b', rb_call('fa', ['nm1', 1], ['null'])], ['ret', ['add', ['var', 'a'], ['var', 'b']]]]])
+        stmts += [['set', 'r2', rb_call('hold', ['num', 3], ['null'])], ['logv', 'r2', ['var', 'r2']],
+                  ['set', 'r1', rb_call('fa', ['num', 2], ['null'])], ['logv', 'r1', ['var', 'r1']]]
+    elif keep == 'local-alias':
+        stmts.append(['def', 'hold', 'hold1', [['logn', 'hold1'], ['set', 'kk', ['var', 'fa']]] + (rebind if where == 'top' else []) +
+                      [['set', 'r', rb_call('kk', ['nm1', 1], ['null'])], ['ret', ['var', 'r']]]])
+        stmts += [['set', 'r2', rb_call('hold', ['num', 4], ['null'])], ['logv', 'r2', ['var', 'r2']]]
+    else:
+        if where == 'top':
+            stmts += rebind
+        stmts += [['set', 'r1', rb_call('fa', ['num', 2], ['null'])], ['logv', 'r1', ['var', 'r1']]]
+        if keep == 'callback':
+            stmts += [['set', 'r2', rb_call('ap', ['num', 4], ['var', 'k1'])], ['logv', 'r2', ['var', 'r2']]]
+        else:
+            stmts += [['set', 'r2', rb_call(kept, ['num', 3], ['null'])], ['logv', 'r2', ['var', 'r2']]]
+    stmts.append(['ret', ['arr', [['var', 'r0'], ['var', 'r1'], ['var', 'r2']]]])
+    return stmts, files
+
+
+def rebind_directed_cases():
+    for keep in REBIND_KEEPS:
+        for how in REBIND_HOWS:
+            for form in REBIND_FORMS:
+                for where in ('top', 'in-body'):
+                    yield [keep, how, form, where]
+
+
+class RbGen:
+    """random re-binding programs: several function statements per name, aliases, systemPartial values, callbacks,
+    systemGlobalSet, assignments to function names, nested function statements, includes; bodies that call by name in return
+    position, inside an addition, through a variable, through if(), twice; labels named alike in callers and callees"""
+
+    def __init__(self, rng, host=False):
+        self.rng = rng
+        self.host = host              # the host supplies hostApply / hostTry
+        self.tags = 0
+        self.files = {}
+        self.bound = set()            # global names that (probably) hold a function when the statement being generated runs
+
+    def tag(self, name):
+        self.tags += 1
+        return f'{name}{self.tags}'
+
+    def some_function(self):
+        """mostly a name that holds a function, sometimes any name (undefined function / null callee)"""
+        rng = self.rng
+        if self.bound and rng.random() < 0.92:
+            return rng.choice(sorted(self.bound))
+        return rng.choice(RB_NAMES + RB_VARS)
+
+    def callee(self, own=None, in_body=False):
+        rng = self.rng
+        if own is not None and rng.random() < 0.45:
+            return own
+        if in_body and rng.random() < 0.12:
+            return 'cb'
+        return self.some_function()
+
+    def cb_expr(self, in_body):
+        rng = self.rng
+        if in_body and rng.random() < 0.6:
+            return ['var', 'cb']
+        return ['var', self.some_function()] if rng.random() < 0.6 else ['null']
+
+    def fn_source(self):
+        return ['var', self.some_function()]
+
+    def bind(self, name, source=None):
+        if source is None or source[1] in self.bound:
+            self.bound.add(name)
+        else:
+            self.bound.discard(name)
+
+    def action(self, depth, in_body):
+        """statements that alias or re-bind"""
+        rng = self.rng
+        kind = rng.choice(['def', 'def', 'def', 'gset', 'gset', 'gset-null', 'alias', 'alias', 'alias', 'assign', 'assign', 'partial',
+                           'partial', 'include', 'include'])
+        if kind == 'def':
+            name = rng.choice(RB_NAMES)
+            self.bind(name)
+            if depth >= 2 or rng.random() < 0.5:
+                return [['def', name, self.tag(name), rb_simple_body('s' + str(self.tags), 10 * self.tags)]]
+            return [self.funcdef(name, depth + 1)]
+        if kind == 'gset':
+            name, source = rng.choice(RB_NAMES + RB_VARS), self.fn_source()
+            self.bind(name, source)
+            return [['do', ['gset', name, source]]]
+        if kind == 'gset-null':
+            name = rng.choice(RB_NAMES)
+            self.bound.discard(name)
+            return [['do', ['gset', name, ['null']]]]
+        if kind in ('alias', 'assign'):
+            name, source = rng.choice(RB_VARS if kind == 'alias' else RB_NAMES), self.fn_source()
+            if not in_body:                                # inside a body the assignment makes a local
+                self.bind(name, source)
+            return [['set', name, source]]
+        if kind == 'partial':
+            name, source = rng.choice(RB_VARS), self.fn_source()
+            if not in_body:
+                self.bind(name, source)
+            return [['set', name, ['partial', source, ['num', rng.randint(0, 3)]]]]
+        url = f'lib{len(self.files)}.bare'
+        if rng.random() < 0.1:
+            if rng.random() < 0.5:
+                self.files[url] = 'broken'
+            return [['include', url]]                      # broken, or missing
+        content = []
+        for _ in range(rng.randint(1, 2)):
+            name = rng.choice(RB_NAMES)
+            self.bind(name)
+            content.append(self.funcdef(name, 2) if rng.random() < 0.5 else
+                           ['def', name, self.tag(name), rb_simple_body('i' + str(self.tags), 10 * self.tags)])
+        if rng.random() < 0.3:
+            name, source = rng.choice(RB_VARS), self.fn_source()
+            self.bind(name, source)
+            content.append(['set', name, source])
+        self.files[url] = content
+        return [['include', url]]
+
+    def funcdef(self, name, depth):
+        rng = self.rng
+        tag = self.tag(name)
+        body = [['logn', tag]]
+        nested_ok = depth < 2
+        if rng.random() < 0.3:
+            body += self.body_action(depth, nested_ok)
+        label = 'done' if rng.random() < 0.93 else 'gone'      # 'gone': never a label of a body (the caller may have one)
+        body.append(['jle0', label])
+        if rng.random() < 0.25:
+            body += self.body_action(depth, nested_ok)
+        form = rng.choice(['tail', 'tail', 'tail', 'add1', 'via-var', 'ifpos', 'two', 'do'] + (['via-host', 'via-host', 'via-try', 'via-try'] if self.host else []))
+        body += rb_recursive_step(form, self.callee(name, True), self.cb_expr(True))
+        body.append(['label', 'done'])
+        body += rng.choice([[['ret', ['num', 10 * self.tags]]], [['ret', ['num', 10 * self.tags]]], [['ret', ['var', 'n']]], [], [['ret0']]])
+        return ['def', name, tag, body]
+
+    def body_action(self, depth, nested_ok):
+        for _ in range(8):
+            act = self.action(depth, True)
+            # included text cannot hold a nested function statement; hand-built bodies can
+            if nested_ok or not any(s[0] in ('def', 'include') for s in act):
+                return act
+        return []
+
+    def program(self):
+        rng = self.rng
+        first = rng.sample(RB_NAMES, rng.randint(1, 3))
+        self.bound.update(first)                       # a body may call a function that is defined after it
+        stmts = [self.funcdef(name, 0) for name in first]
+        results = []
+        def call(callee):
+            var = f'r{len(results)}'
+            results.append(var)
+            if self.host and rng.random() < 0.35:
+                return [['set', var, ['call', rng.choice(['hostApply', 'hostTry', 'hostTry']), [['var', callee], ['num', rng.randint(0, 4)]]]],
+                        ['logv', var, ['var', var]]]
+            return [['set', var, rb_call(callee, ['num', rng.randint(0, 4)], self.cb_expr(False))], ['logv', var, ['var', var]]]
+        for _ in range(rng.randint(3, 9)):
+            kind = rng.choice(['action', 'action', 'call', 'call', 'call', 'label', 'history'])
+            if kind == 'action':
+                stmts += self.action(0, False)
+            elif kind == 'history':
+                # keep the value of a function name, re-bind the name, call the kept value (and the name)
+                name, var = rng.choice(sorted(self.bound & set(RB_NAMES)) or RB_NAMES), rng.choice(RB_VARS)
+                keep = ['var', name] if rng.random() < 0.75 else ['partial', ['var', name], ['num', rng.randint(1, 3)]]
+                stmts.append(['set', var, keep])
+                self.bind(var, ['var', name])
+                how = rng.choice(['def', 'def', 'gset', 'gset-null', 'assign', 'include', 'nested-def'])
+                if how == 'def':
+                    stmts.append(self.funcdef(name, 1) if rng.random() < 0.5 else ['def', name, self.tag(name), rb_simple_body('s' + str(self.tags), 10 * self.tags)])
+                elif how == 'gset':
+                    stmts.append(['do', ['gset', name, ['var', rng.choice(sorted(self.bound - {name, var}) or RB_NAMES)]]])
+                elif how == 'gset-null':
+                    stmts.append(['do', ['gset', name, ['null']]])
+                    self.bound.discard(name)
+                elif how == 'assign':
+                    stmts.append(['set', name, ['var', rng.choice(sorted(self.bound - {name, var}) or RB_NAMES)]])
+                elif how == 'include':
+                    url = f'lib{len(self.files)}.bare'
+                    self.files[url] = [['def', name, self.tag(name), rb_simple_body('i' + str(self.tags), 10 * self.tags)]]
+                    stmts.append(['include', url])
+                else:
+                    stmts.append(['def', 'rb', self.tag('rb'), [['def', name, self.tag(name), rb_simple_body('s' + str(self.tags), 10 * self.tags)]]])
+                    stmts.append(['do', rb_call('rb', ['num', 0], ['null'])])
+                stmts += call(var)
+                if rng.random() < 0.5:
+                    stmts += call(name)
+            elif kind == 'label':
+                stmts.append(['label', rng.choice(['done', 'gone'])])
+            else:
+                stmts += call(self.callee())
+        stmts.append(['ret', ['arr', [['var', v] for v in results]]])
+        return stmts, self.files
+
+
+def rb_modelled(session):
+    return run_session_sim(session) is not None
+
+
+def rebind_random(rng, host=False):
+    """-> (statements, files) of a program RbSim models (up to 6 attempts), or None; host: it uses hostApply / hostTry"""
+    for _ in range(6):
+        gen = RbGen(rng, host)
+        stmts, files = gen.program()
+        if rb_modelled({'progs': [stmts], 'files': files, 'steps': [['exec', 0, dict(HOST_GLOBALS) if host else {}]], 'max': RB_MAX}):
+            return stmts, files
+    return None
+
+
+DIVE_FAULTS = ['none', 'none', 'label', 'label', 'undefined', 'null-callee', 'budget', 'include-missing', 'include-broken', 'partial-label',
+               'top-label', 'top-undefined']
+DIVE_CAUGHT = ['host-fail', 'caught-label', 'caught-undefined', 'caught-budget', 'caught-include-missing', 'caught-host-fail']
+DIVE_SHAPES = ['tail', 'add1', 'via-var', 'mutual', 'ifpos', 'via-host']
+DIVE_FILES = {'broken.bare': 'broken', 'ok.bare': [['def', 'fc', 'fc9', rb_simple_body('fc9', 90)]]}
+
+
+def dive_program(fault, shape):
+    """fa(N, null) nests N + 1 script function calls (directly, inside an addition, through a variable, through fb, through
+    if(), through the host callable hostApply); the innermost one ends normally (fault 'none') or with a runtime error raised at that depth: a jump to a label that
+    only the top level has, an undefined function, a host callable that raises BareScriptRuntimeError, a null callee, the statement budget, a missing / broken include, an unknown
+    label inside a function reached through systemPartial; 'top-label' / 'top-undefined': the calls end normally and then the
+    top level jumps to a label that only the body of fa has / calls an undefined function (a failure at nesting depth 0).
+    The top level itself jumps forward over a statement to a label that the bodies have too.
+    'caught-<fault>': the top level calls hostTry(fa, N) three times - the host catches the error raised at depth N + 1 and the
+    run goes on - and then fh(N), a copy of fa that ends normally (mutual: as tail)."""
+    caught = fault.startswith('caught-')
+    if caught:
+        fault = fault[len('caught-'):]
+        shape = 'tail' if shape == 'mutual' else shape
+    bottom = {
+        'none': [['ret', ['num', 5]]],
+        'top-label': [['ret', ['num', 5]]],
+        'top-undefined': [['ret', ['num', 5]]],
+        'label': [['jump', 'nowhere']],
+        'undefined': [['do', ['call', 'nosuch', []]], ['ret', ['num', 5]]],
+        'host-fail': [['do', ['call', 'hostFail', []]], ['ret', ['num', 5]]],
+        'null-callee': [['do', rb_call('cb', ['num', 0], ['null'])], ['ret', ['num', 5]]],
+        'budget': [['label', 'spin'], ['jump', 'spin']],
+        'include-missing': [['include', 'missing.bare'], ['ret', ['num', 5]]],
+        'include-broken': [['include', 'broken.bare'], ['ret', ['num', 5]]],
+        'partial-label': [['set', 'p', ['partial', ['var', 'fb'], ['num', 0]]], ['ret', rb_call('p', ['null'], ['null'])]],
+    }[fault]
+    callee = 'fb' if shape == 'mutual' else 'fa'
+    step = rb_recursive_step('tail' if shape == 'mutual' else shape, callee)
+    stmts = [['def', 'fa', 'fa1', [['jle0', 'bottom']] + step + [['label', 'inner'], ['label', 'bottom']] + bottom]]
+    if shape == 'mutual':
+        stmts.append(['def', 'fb', 'fb1', [['jle0', 'bottom'], ['ret', rb_call('fa', ['nm1', 1], ['var', 'cb'])], ['label', 'bottom'],
+                                           ['ret', rb_call('fa', ['num', 0], ['var', 'cb'])]]])
+    elif fault == 'partial-label':
+        stmts.append(['def', 'fb', 'fb1', [['jump', 'nowhere']]])
+    stmts += [['label', 'nowhere'], ['jump', 'bottom'], ['logv', 'skipped', ['num', 0]], ['label', 'bottom']]
+    if caught:
+        stmts.append(['def', 'fh', 'fh1', [['jle0', 'bottom']] + rb_recursive_step(shape, 'fh') + [['label', 'bottom'], ['ret', ['num', 5]]]])
+        for _ in range(3):
+            stmts += [['set', 'c', ['call', 'hostTry', [['var', 'fa'], ['var', 'N']]]], ['logv', 'c', ['var', 'c']]]
+    stmts += [['set', 'out', rb_call('fh' if caught else 'fa', ['var', 'N'], ['null'])], ['logv', 'out', ['var', 'out']]]
+    if fault == 'top-label':
+        stmts.append(['jump', 'inner'])
+    elif fault == 'top-undefined':
+        stmts.append(['do', ['call', 'nosuch', []]])
+    stmts.append(['ret', ['var', 'out']])
+    return stmts
+
+
+SESSION_DEPTHS = [0, 1, 2, 3, 5, 10, 20, 30, 40, 50]
+
+
+def session_random(rng):
+    """A pool of 2..4 programs (dive programs with and without a fault, random re-binding programs) executed 2..6 / 8..20 / 60..150
+    times in random order on one options object, with nesting depth 0..50 at the point of failure (<= 2 in the long sessions);
+    a quarter of the executions with their own statement budget (40 / 300 / 2000 instead of 2000);
+    after 30% of the executions the host calls script functions of the finished run directly or through evaluate_expression."""
+    for _ in range(6):
+        progs, files = [], dict(DIVE_FILES)
+        host = rng.random() < 0.35                         # the host supplies hostApply / hostTry in every execution
+        for _ in range(rng.randint(2, 4)):
+            if rng.random() < 0.7:
+                fault = rng.choice(DIVE_FAULTS + (DIVE_CAUGHT * 2 if host else []))
+                shape = rng.choice(DIVE_SHAPES if host else DIVE_SHAPES[:-1])
+                if fault == 'partial-label' and shape == 'mutual':
+                    fault = 'label'
+                progs.append(dive_program(fault, shape))
+            else:
+                found = rebind_random(rng, host)
+                if found is None:
+                    continue
+                stmts, more = found
+                renamed = {url: f'p{len(progs)}{url}' for url in more}
+                stmts = json.loads(json.dumps(stmts))
+                rb_rename_includes(stmts, renamed)
+                files.update({renamed[url]: content for url, content in more.items()})
+                progs.append(stmts)
+        if not progs:
+            continue
+        profile = rng.choice(['short', 'short', 'medium', 'medium', 'long'])
+        length = {'short': rng.randint(2, 6), 'medium': rng.randint(8, 20), 'long': rng.randint(60, 150)}[profile]
+        depths = SESSION_DEPTHS if profile != 'long' else [0, 1, 2]
+        steps = []
+        for _ in range(length):
+            steps.append(['exec', rng.randrange(len(progs)), dict(HOST_GLOBALS if host else {}, N=rng.choice(depths))] + ([rng.choice([40, 300, 2000])] if rng.random() < 0.25 else []))
+            if rng.random() < 0.3:
+                for _ in range(rng.randint(1, 3)):
+                    name = rng.choice(RB_NAMES + RB_VARS + ['nosuch'])
+                    n_arg = rng.choice([0, 1, 2, 3, rng.choice(depths)])
+                    if rng.random() < 0.6:
+                        steps.append(['call', name, [n_arg, rng.choice([None, None, {'global': rng.choice(RB_NAMES + RB_VARS)}])]])
+                    else:
+                        steps.append(['eval', rb_call(name, ['num', n_arg], rng.choice([['null'], ['var', rng.choice(RB_NAMES)]])), rng.random() < 0.5])
+        session = {'progs': progs, 'files': files, 'steps': steps, 'max': SESSION_MAX}
+        if rb_modelled(session):
+            return session, profile + ('-host' if host else '')
+    return None
+
+
+def rb_rename_includes(stmts, renamed):
+    for s in stmts:
+        if s[0] == 'include' and s[1] in renamed:
+            s[1] = renamed[s[1]]
+        elif s[0] == 'def':
+            rb_rename_includes(s[3], renamed)
+
+
+def session_directed_cases(depths=(1, 40, 50)):
+    """every fault x shape at depth 1, (40,) 50, executed [healthy, faulty] x 3 on one options object, and 120 x the faulty program
+    at depth 0 followed by the healthy one"""
+    for fault in sorted(set(DIVE_FAULTS) - {'none'}) + DIVE_CAUGHT:
+        for shape in DIVE_SHAPES:
+            if (fault == 'partial-label' and shape == 'mutual') or (fault in DIVE_CAUGHT and shape == 'mutual'):
+                continue
+            host = dict(HOST_GLOBALS) if fault in DIVE_CAUGHT or shape == 'via-host' else {}
+            progs = [dive_program('none', shape), dive_program(fault, shape)]
+            for depth in depths:
+                steps = []
+                for _ in range(3):
+                    steps += [['exec', 0, dict(host, N=12)], ['exec', 1, dict(host, N=depth)]]
+                steps.append(['call', 'fa', [3, None]])
+                yield ['alternate', fault, shape, depth], {'progs': progs, 'files': dict(DIVE_FILES), 'steps': steps, 'max': SESSION_MAX}
+        host = dict(HOST_GLOBALS) if fault in DIVE_CAUGHT else {}
+        progs = [dive_program('none', 'tail'), dive_program(fault, 'tail')]
+        steps = [['exec', 1, dict(host, N=0)] for _ in range(120)] + [['exec', 0, dict(host, N=3)], ['exec', 1, dict(host, N=0)]]
+        yield ['many-shallow', fault], {'progs': progs, 'files': dict(DIVE_FILES), 'steps': steps, 'max': 300}
+
+
+def stream_rebind(ctx, n_random, driver=True, name='exec-rebind'):
+    rng = ctx.rng(name)
+    st = ctx.stream(name,
+                    '(F) re-binding histories, generated in an abstract language, rendered to hand-built jump-level models and predicted by '
+                    'RbSim (a statement interpreter with its own expression evaluator, written from the property statement): directed = '
+                    'fa is bound to a function that calls fa again (return position / inside an addition / through a variable / through '
+                    'if() / through fb) x the old function value is kept (alias variable, systemPartial, callback argument, local alias '
+                    'of a running function, still executing, called by name earlier in the same invocation) x the global fa is re-bound (second function statement, function statement '
+                    'in another body, systemGlobalSet to a function / to null, assignment = a local shadow inside a body, include) x at '
+                    'the top level (called-before: in a function called by the body) / from inside the running body - all 360; random = 1..3 names with several function statements each, '
+                    'aliases, systemPartial, systemGlobalSet, assignments to function names, nested function statements, includes '
+                    '(present / missing / broken), bodies calling by name, by alias and by callback in every return form, labels named '
+                    'alike in callers and callees; a quarter of the random programs also call through the host callables hostApply(fn, n) '
+                    '(the host calls fn) and hostTry(fn, n) (the host calls fn and catches BareScriptRuntimeError) - these are '
+                    'host-only, no Lean comparison; every program is one session [exec, exec, host call of fa]; execute_script vs Lean '
+                    'execM (exec op with the include files) vs RbSim (session-closed-form) vs the reference statement interpreter; '
+                    'non-trivial = RbSim models the program')
+    saved_driver = ctx.driver
+    if not driver:
+        ctx.driver = None
+    try:
+        cases = []
+        for params in rebind_directed_cases():
+            stmts, files = rebind_directed(*params)
+            session = {'progs': [stmts], 'files': files, 'steps': [['exec', 0, {}], ['exec', 0, {}], ['call', 'fa', [2, None]]], 'max': RB_MAX}
+            cases.append((['rebind'] + params, session, ['directed', 'keep-' + params[0], 'rebind-' + params[1], 'form-' + params[2], params[3]]))
+        for ix in range(n_random):
+            host = rng.random() < 0.25
+            found = rebind_random(rng, host)
+            if found is None:
+                continue
+            stmts, files = found
+            g = dict(HOST_GLOBALS) if host else {}
+            session = {'progs': [stmts], 'files': files, 'max': RB_MAX,
+                       'steps': [['exec', 0, g], ['exec', 0, g], ['call', rng.choice(RB_NAMES), [rng.randint(0, 3), None]]]}
+            cases.append((json.dumps(['rebind-random', ix, host, stmts, files], separators=(',', ':')), session,
+                          ['random', 'with-include' if rb_has_include(stmts) else 'no-include', 'host-callables' if host else 'lean-host']))
+        run_sessions(ctx, name, st, cases)
+    finally:
+        ctx.driver = saved_driver
+
+
+def stream_sessions(ctx, n_random, driver=True, name='exec-sessions'):
+    rng = ctx.rng(name)
+    st = ctx.stream(name,
+                    '(G) sessions: sequences of executions (and host calls of the script functions they leave behind, directly and through '
+                    'evaluate_expression) on ONE options dict whose globals member is replaced by a fresh copy before every execution - '
+                    'what an embedding application does; programs = fa(N) nesting N+1 calls (tail / in an addition / through a variable / '
+                    'mutual / through if()) whose innermost call ends normally or with a runtime error raised at that depth (unknown label '
+                    'that only the caller has, undefined function, null callee, statement budget, missing include, broken include, '
+                    'unknown label behind systemPartial; the same failures caught by the host callable hostTry three times in one run, '
+                    'after which the run goes on) + random re-binding programs; directed = every fault x shape alternating with '
+                    'the healthy program at depth 1 / 50 (thorough: + 40) three times + 120 shallow faults then the healthy program; random = pools '
+                    'of 2..4 programs, 2..150 steps, depth 0..50, a quarter of the executions with their own maxStatements (40/300/2000); failures '
+                    'at the top level too (unknown label that only a body has, undefined function); oracles: every step has the same outcome (result/error, log, globals, '
+                    'statement count) as with new options per execution (session-reused-options), the outcome RbSim predicts '
+                    '(session-closed-form), models unchanged; every distinct execution also vs Lean execM and vs the reference statement '
+                    'interpreter; host calls and options re-use are host-only (the Lean model executes one model from one state): '
+                    'implementation-side oracles; non-trivial = RbSim models the session')
+    saved_driver = ctx.driver
+    if not driver:
+        ctx.driver = None
+    try:
+        cases = [(case, session, ['directed', case[0], 'fault-' + case[1]]) for case, session in session_directed_cases((1, 50) if ctx.quick else (1, 40, 50))]
+        for ix in range(n_random):
+            found = session_random(rng)
+            if found is None:
+                continue
+            session, profile = found
+            cases.append((json.dumps(['session-random', ix, session], separators=(',', ':')), session, ['random', profile]))
+        run_sessions(ctx, name, st, cases)
+    finally:
+        ctx.driver = saved_driver
+
+
+# ---------------------------------------------------------------------------------------------------------------------
 # witnesses: the one that goes into the replay file is small enough to be stored whole and fails again in a fresh process
 # ---------------------------------------------------------------------------------------------------------------------
 
@@ -1068,7 +2264,7 @@ def witness_size(w):
 def shrink_witness(w, max_replays=400):
     """Greedy statement deletion (any list of the model, the history first) while the same oracle still fails."""
     inp = w['input']
-    if 'shared' in inp or 'model' not in inp or w['oracle'] not in ('model-immutable', 'repeatable', 'documented-statement-semantics'):
+    if 'shared' in inp or 'model' not in inp or inp.get('host_globals') or w['oracle'] not in ('model-immutable', 'repeatable', 'documented-statement-semantics'):
         return w
     validate = fw.impl()['model'].validate_script
 
@@ -1146,7 +2342,9 @@ def order_witnesses(ctx):
             seen.add(w['oracle'])
             candidates.append(w)
     candidates += [w for w in ordered if not any(w is c for c in candidates)][:4]
-    for w in candidates[:12]:
+    # sessions reported whole: they fail on their own history, also when the process carries state from earlier cases
+    candidates += [w for w in ordered if w.get('whole_session') and not any(w is c for c in candidates)][:3]
+    for w in candidates[:15]:
         small = shrink_witness(w) if witness_size(w) > REPLAY_LIMIT else w
         if witness_size(small) <= REPLAY_LIMIT and replays_in_fresh_process(small):
             ordered = [small] + [o for o in ordered if o is not w]
@@ -1156,6 +2354,9 @@ def order_witnesses(ctx):
 
 def streams(ctx):
     try:
+        # the sessions first: the process is still as a fresh interpreter leaves it, and the witness list is empty (it is capped)
+        stream_sessions(ctx, ctx.scale(120, 1500))
+        stream_rebind(ctx, ctx.scale(400, 6000))
         stream_directed(ctx)
         stream_exhaustive(ctx)
         stream_random(ctx, ctx.scale(600, 16000))
@@ -1174,6 +2375,10 @@ def search(ctx):
         ctx.quick = True
         stream_directed(ctx, driver=False)
         if not ctx.witnesses:
+            stream_rebind(ctx, 3000 if saved else 30000, driver=False, name='search-rebind')
+        if not ctx.witnesses:
+            stream_sessions(ctx, 1000 if saved else 10000, driver=False, name='search-sessions')
+        if not ctx.witnesses:
             stream_exhaustive(ctx, driver=False)
         if not ctx.witnesses:
             stream_random(ctx, 6000 if saved else 60000, driver=False, name='search-random')
@@ -1184,6 +2389,10 @@ def search(ctx):
 
 def replay(witness):
     inp = witness['input']
+    if inp.get('host_globals'):                 # {'host': kind} -> the host callable
+        inp = dict(inp, globals=session_globals(inp['globals']))
+    if 'session' in inp:                        # (F), (G): the whole session again, the oracle of the witness on any step
+        return bool(session_failures(inp['session'], witness['oracle'])[0])
     if 'shared' in inp:                         # rebuild the object graph with the shared jump object (JSON cannot hold it)
         _, bad = impl_oracles(build_shared(*inp['shared']), inp['globals'], inp['max'], json_copy=True)
         return any(name == witness['oracle'] for name, _, _ in bad)
@@ -1232,7 +2441,11 @@ LEVEL_TEXT = ('Theorems about the Lean mirror of _execute_script_helper/_script_
               'labels resolved in that body only - the caller list is not an input of the callee. Tied to the code by differential '
               'correspondence on hand-built validated models: every statement list of length <= 4 over 14 atoms (quick), + length 5 over 10 '
               'atoms and length 6 over 9 atoms (thorough), random models <= 40 statements with duplicate labels, dangling jumps, dropped call '
-              'arguments and in-place modification of every assigned value; directed families (duplicate labels, shared statement objects, '
+              'arguments and in-place modification of every assigned value; re-binding histories (a function name re-bound by a function statement / '
+              'systemGlobalSet / assignment / include while the old function value is kept by an alias, systemPartial, a callback or is still '
+              'running: 300 directed + random programs); sessions of 2..150 executions and host calls on one options dict with runtime errors '
+              'raised at nesting depth 0..51 (implementation-side: same outcome as on new options, as predicted by RbSim); '
+              'directed families (duplicate labels, shared statement objects, '
               'calls without args, the call-arity x parameter-name x globals matrix, container-building expressions re-evaluated after an '
               'in-place modification); implementation oracles: independent reference statement interpreter, model dicts unchanged, two '
               'executions identical, closed-form parameter binding, independence of a function from globals named like its parameters, '
